@@ -33,5 +33,7 @@ def check(run):
     # the other structures' constructors): constructor, Validate, serialisation and re-parse all return normally
     for fam in ("ident", "keycert", "cert", "raddr", "lease", "offsig", "ls2", "mapping"):
         run.gen("Gen_Build", consts={"Fam": fam}, tag="Gen_Build_" + fam)
+    # DecryptInnerData on accepted values, with plaintext a peer chose (independently sealed, bytes after the LeaseSet2)
+    run.gen("Gen_C16", consts={"Part": "encdec"}, tag="Gen_C16_encdec")
     run.replay_and_judge()
     return vlib.finish(run, "exploration", RULE, ASSUME)
